@@ -900,6 +900,10 @@ impl HistExec {
         for (what, p) in &res.write_set {
             if !p.starts_with("$ROOT") && Path::new(p).exists() && what != "unlink" && what != "rmdir" {
                 step_viol.push(Viol::new("wrote_outside_mirror", step, format!("{what} {p} (outside the project tree)")));
+                // reported; do not leave it on the machine (temp directories only)
+                if (p.starts_with("/tmp/") || p.starts_with("/var/tmp/") || p.starts_with("/dev/shm/")) && Path::new(p).is_file() {
+                    let _ = std::fs::remove_file(p);
+                }
             }
         }
 
